@@ -14,6 +14,7 @@ from ..engine import rule
 from ..model import Undecided
 from ..cfg import dotted, call_name, is_call, simple_name, unparse, const_value, contains, enclosing, implied
 from ..flow import Defs, depends
+from ..decide import table, ret_kind
 from ..util import keyword, returns_of, calls_in, inside, order_key
 
 NOT_DECIDED = 'that a transformed bbox lies inside the coverage numerically; contents of the configured lists'
@@ -29,36 +30,39 @@ def _raises_blank(g, n):
 
 
 def _gate(ctx, fn, fetch_pred, gates, label):
-    """every fetch node is unreachable when a gate's "outside" condition holds, and that condition raises BlankImage /
-    returns None"""
+    """abstract run of the function under every truth assignment of its tests (flags and inlined predicates are followed):
+    whenever a gate's "outside" condition holds (attribute set, containment test negative) no upstream call is executed"""
+    # the range test may be delegated to the inherited MapLayer.check_res_range
+    fn = ctx.repo.with_inlined(fn, ['check_res_range'])
     g = fn.cfg
     fetch = g.find(fetch_pred)
     if not fetch:
         ctx.bad('%s:fetch' % label, 'no upstream call found', fn)
         return
+
+    def ev(st):
+        if isinstance(st, (ast.Assign, ast.Return, ast.Expr, ast.AugAssign)) and contains(st, lambda x: isinstance(x, ast.Call) and fetch_pred(x)):
+            return 'fetch'
+        return None
+    tab = ctx.rows(table(fn.node.body, ret_kind, event_of=ev))
     for name, atom_pred, inside_pol in gates:
-        ok = True
-        why = ''
-        for n, x in fetch:
-            # edges implying "attribute set and test negative":
-            edges = []
-            for s, d, test, pol in g.branch_edges():
-                imp = implied(test, pol)
-                if any(atom_pred(at) and p is (not inside_pol) for at, p in imp):
-                    edges.append((s, d))
-            if not edges:
-                ok = False
-                why = 'no %s test found' % name
-                break
-            for s, d in edges:
-                if n in g.reachable(d):
-                    ok = False
-                    why = 'the upstream call is reachable although the %s test failed' % name
-                if not (g.dominates(s, n) and s != n):
-                    ok = False
-                    why = 'the %s test does not come before the upstream call' % name
-        ctx.check(ok, '%s:%s-gate' % (label, name), 'no upstream request when the %s test fails' % name, fn,
-                  fail='%s: %s' % (label, why))
+        tests = [a for a in tab.atoms if atom_pred(tab.atom_objs[a])]
+        if len(tests) != 1:
+            ctx.bad('%s:%s-gate' % (label, name), '%s: no %s test found' % (label, name), fn)
+            continue
+        recv = unparse(tab.atom_objs[tests[0]].expr.func.value) if isinstance(tab.atom_objs[tests[0]].expr, ast.Call) and \
+            isinstance(tab.atom_objs[tests[0]].expr.func, ast.Attribute) else None
+        sets = [a for a in tab.atoms if tab.atom_objs[a].op is None and unparse(tab.atom_objs[a].expr) == recv]
+        bad = []
+        seen_fetch = False
+        for asg, out, events in tab.assignments():
+            seen_fetch = seen_fetch or 'fetch' in events
+            if sets and not asg[sets[0]]:
+                continue            # range / coverage not configured
+            if asg[tests[0]] is not inside_pol and 'fetch' in events:
+                bad.append(asg)
+        ctx.check(not bad and seen_fetch, '%s:%s-gate' % (label, name), 'no upstream request when the %s test fails (%d rows)' % (name, len(tab.rows)), fn,
+                  fail='%s: the upstream call is executed although the %s test failed' % (label, name))
 
 
 @rule('C17.a', floor=6)
